@@ -359,11 +359,43 @@ pub fn run_scenario(
             },
             "blind" => openings[wj].1[t - 1] += Scalar::ONE,
             "value" => openings[wj].0 ^= 1,
+            "forge" => {},
             _ => panic!("unknown witness deviation {}", wk),
         }
         let witness = RangeWitness::init(openings.iter().map(|(v, r)| CommitmentOpening::new(*v, r.clone())).collect());
         let mut mbuilt = MemberBuilt { n, t, m, cap, vals: vals.clone(), proms: proms.clone(), blinds: blinds.clone(), commitments: commitments.clone(), seed, label, proof_bytes: None };
-        let proof = match witness {
+        let forge = wk == "forge";
+        let proof = if forge {
+            // the independent prover: no guards; its proof goes through from_bytes like any foreign proof
+            if rec.is_some() {
+                merlin::trace::start();
+                grec_start();
+            }
+            let bytes = catch_unwind(AssertUnwindSafe(|| ref_prove(&stmt, &vals, &blinds, label_bytes(label), ctx.run_seed ^ sidx.wrapping_mul(77) ^ bkey)));
+            let (mev, gev) = if rec.is_some() { (merlin::trace::stop(), grec_stop()) } else { (vec![], Default::default()) };
+            match bytes {
+                Err(e) => {
+                    out.prove = "harness".into();
+                    out.detail = format!("reference prover panicked: {}", panic_msg(&e));
+                    return (out, built);
+                },
+                Ok(bytes) => {
+                    if let Some(r) = rec.as_deref_mut() {
+                        r.push(CallRec {
+                            kind: "prove",
+                            merlin: mev,
+                            group: gev,
+                            info: json!({"member": mi, "n": n, "t": t, "m": m, "cap": cap, "label": label, "seeded": seed.is_some(), "bytes": bytes, "reference": true,
+                                "commits": stmt.commitments_compressed.iter().map(|c| c.as_fixed_bytes().to_vec()).collect::<Vec<_>>(),
+                                "H": stmt.generators.h_base_compressed().as_fixed_bytes().to_vec(),
+                                "G": stmt.generators.g_bases_compressed().iter().map(|c| c.as_fixed_bytes().to_vec()).collect::<Vec<_>>()}),
+                        });
+                    }
+                    RangeProof::<P>::from_bytes(&bytes).ok()
+                },
+            }
+        } else {
+            match witness {
             Err(_) => None, // the caller cannot even form a witness: no proof
             Ok(w) => {
                 let mut ext = RngModel::new(mb["rng"].as_str().unwrap_or("chacha"), ctx.run_seed ^ sidx.wrapping_mul(0x100000001b3) ^ (bkey << 32) ^ rvar.wrapping_mul(0x9e3779b97f4a7c15));
@@ -388,7 +420,7 @@ pub fn run_scenario(
                                 merlin: mev,
                                 group: gev,
                                 info: json!({"member": mi, "n": n, "t": t, "m": m, "cap": cap, "label": label,
-                                    "seeded": seed.is_some(), "bytes": p.to_bytes(),
+                                    "seeded": seed.is_some(), "bytes": p.to_bytes(), "reference": false,
                                     "commits": stmt.commitments_compressed.iter().map(|c| c.as_fixed_bytes().to_vec()).collect::<Vec<_>>(),
                                     "H": stmt.generators.h_base_compressed().as_fixed_bytes().to_vec(),
                                     "G": stmt.generators.g_bases_compressed().iter().map(|c| c.as_fixed_bytes().to_vec()).collect::<Vec<_>>()}),
@@ -398,6 +430,7 @@ pub fn run_scenario(
                     },
                 }
             },
+            }
         };
         if let Some(p) = &proof {
             let nb = p.to_bytes().len();
@@ -540,7 +573,10 @@ pub fn run_scenario(
             while x < k {
                 let hi = (x + model_mb).min(k);
                 let len = hi - x;
-                let nfill = if len == model_mb { real_mb - len } else { rng.next_u32() as usize % (real_mb - model_mb) };
+                // a partial last chunk: exactly one member beyond the boundary when the input lengths are skewed (so the
+                // shortest sequence ends exactly on the boundary), a random remainder otherwise
+                let skewed = sc["skew"].as_array().map(|a| a.iter().any(|x| x.as_i64() != Some(0))).unwrap_or(false);
+                let nfill = if len == model_mb { real_mb - len } else if skewed { 0 } else { rng.next_u32() as usize % (real_mb - model_mb) };
                 // the chunk's members keep their order; fillers go before its last member (after it when it is alone)
                 for y in x..hi {
                     let fill_here = (len > 1 && y == hi - 1) || false;
@@ -1039,4 +1075,194 @@ pub fn check_generators(script: &Value, n: usize, cap: usize, seed: u64, all_com
 pub fn gens_fingerprint(n: usize, cap: usize) -> Vec<[u8; 32]> {
     let p = RangeParameters::<P>::init(n, cap, pedersen_std(2)).unwrap();
     p.gi_base_iter().chain(p.hi_base_iter()).map(|x| *x.compress().as_fixed_bytes()).chain(p.g_bases_compressed().iter().map(|c| *c.as_fixed_bytes())).chain(std::iter::once(*p.h_base_compressed().as_fixed_bytes())).collect()
+}
+
+// ---------------------------------------------------------------------------------------------------
+// An independent prover, written from the protocol description (BPP.tla `Prove`), with NO witness guards:
+// it proves whatever it is given.  Used (a) for interoperability (C19), (b) to manufacture proofs the library's
+// own prover refuses to make (out-of-range value under a promise that brings the offset back into range, ...).
+// Every proof it makes on the free-module group is itself validated by TLC against the specification (TraceProve).
+// ---------------------------------------------------------------------------------------------------
+fn ref_challenge(tr: &mut Transcript, label: &'static [u8]) -> Scalar {
+    let mut buf = [0u8; 64];
+    tr.challenge_bytes(label, &mut buf);
+    Scalar::from_bytes_mod_order_wide(&buf)
+}
+
+pub fn ref_prove(stmt: &RangeStatement<P>, vals: &[u64], blinds: &[Vec<Scalar>], label: &'static [u8], rng_seed: u64) -> Vec<u8> {
+    use curve25519_dalek::traits::{Identity, MultiscalarMul};
+    let n = stmt.generators.bit_length();
+    let m = stmt.commitments.len();
+    let t = stmt.generators.extension_degree() as usize;
+    let nm = n * m;
+    let k = nm.trailing_zeros() as usize;
+    let gk: Vec<P> = stmt.generators.g_bases().to_vec();
+    let h = stmt.generators.h_base().clone();
+    let mut gs: Vec<P> = stmt.generators.gi_base_iter().take(nm).cloned().collect();
+    let mut hs: Vec<P> = stmt.generators.hi_base_iter().take(nm).cloned().collect();
+    let mut rng = ChaCha12Rng::seed_from_u64(rng_seed);
+    let mut draw = |rng: &mut ChaCha12Rng| -> Scalar {
+        let mut w = [0u8; 64];
+        rng.fill_bytes(&mut w);
+        Scalar::from_bytes_mod_order_wide(&w)
+    };
+    let seeded = |lbl: &str, j: Option<u32>, kk: usize| -> Option<Scalar> { stmt.seed_nonce.map(|s| crate::trace::ref_nonce(&s, lbl, j, Some(kk as u32))) };
+    // transcript prefix
+    let mut tr = Transcript::new(label);
+    tr.append_message(b"dom-sep", b"Bulletproofs+ Range Proof");
+    tr.append_message(b"H", h.compress().as_fixed_bytes());
+    for g in &gk {
+        tr.append_message(b"G", g.compress().as_fixed_bytes());
+    }
+    tr.append_u64(b"N", n as u64);
+    tr.append_u64(b"T", t as u64);
+    tr.append_u64(b"M", m as u64);
+    for c in &stmt.commitments {
+        tr.append_message(b"Ci", c.compress().as_fixed_bytes());
+    }
+    for p in &stmt.minimum_value_promises {
+        tr.append_u64(b"vi - minimum_value", p.unwrap_or(0));
+    }
+    // bits of (value - promise), whatever they are
+    let mut a: Vec<Scalar> = Vec::with_capacity(nm);
+    let mut b: Vec<Scalar> = Vec::with_capacity(nm);
+    for j in 0..m {
+        let off = vals[j].wrapping_sub(stmt.minimum_value_promises[j].unwrap_or(0));
+        for i in 0..n {
+            let bit = (off >> i) & 1;
+            a.push(Scalar::from(bit));
+            b.push(Scalar::from(bit) - Scalar::ONE);
+        }
+    }
+    let mut alpha: Vec<Scalar> = (0..t).map(|kk| seeded("alpha", None, kk).unwrap_or_else(|| draw(&mut rng))).collect();
+    let mut big_a = P::identity();
+    for kk in 0..t {
+        big_a += &gk[kk] * alpha[kk];
+    }
+    for i in 0..nm {
+        big_a += &gs[i] * a[i];
+        big_a += &hs[i] * b[i];
+    }
+    tr.append_message(b"A", big_a.compress().as_fixed_bytes());
+    let y = ref_challenge(&mut tr, b"y");
+    let z = ref_challenge(&mut tr, b"z");
+    let z2 = z * z;
+    let mut ypow = vec![Scalar::ONE; nm + 2];
+    for i in 1..nm + 2 {
+        ypow[i] = ypow[i - 1] * y;
+    }
+    let yinv = y.invert();
+    // d_i = z^(2(j+1)) * 2^b
+    let mut d = vec![Scalar::ZERO; nm];
+    let mut zp = Scalar::ONE;
+    for j in 0..m {
+        zp *= z2;
+        let mut two = Scalar::ONE;
+        for i in 0..n {
+            d[j * n + i] = zp * two;
+            two = two + two;
+        }
+    }
+    for i in 0..nm {
+        a[i] -= z;
+        b[i] += d[i] * ypow[nm - i] + z;
+    }
+    let mut zp = Scalar::ONE;
+    for j in 0..m {
+        zp *= z2;
+        for kk in 0..t {
+            alpha[kk] += zp * blinds[j][kk] * ypow[nm + 1];
+        }
+    }
+    // folding rounds
+    let mut ls = vec![];
+    let mut rs = vec![];
+    let mut len = nm;
+    for round in 0..k {
+        let nn = len / 2;
+        let yn = ypow[nn];
+        let yni = {
+            let mut x = Scalar::ONE;
+            for _ in 0..nn {
+                x *= yinv;
+            }
+            x
+        };
+        let dl: Vec<Scalar> = (0..t).map(|kk| seeded("dL", Some(round as u32), kk).unwrap_or_else(|| draw(&mut rng))).collect();
+        let dr: Vec<Scalar> = (0..t).map(|kk| seeded("dR", Some(round as u32), kk).unwrap_or_else(|| draw(&mut rng))).collect();
+        let mut cl = Scalar::ZERO;
+        let mut cr = Scalar::ZERO;
+        for i in 0..nn {
+            cl += a[i] * ypow[i + 1] * b[nn + i];
+            cr += a[nn + i] * ypow[nn + i + 1] * b[i];
+        }
+        let mut l = &h * cl;
+        let mut r = &h * cr;
+        for kk in 0..t {
+            l += &gk[kk] * dl[kk];
+            r += &gk[kk] * dr[kk];
+        }
+        for i in 0..nn {
+            l += &gs[nn + i] * (a[i] * yni);
+            l += &hs[i] * b[nn + i];
+            r += &gs[i] * (a[nn + i] * yn);
+            r += &hs[nn + i] * b[i];
+        }
+        tr.append_message(b"L", l.compress().as_fixed_bytes());
+        tr.append_message(b"R", r.compress().as_fixed_bytes());
+        let e = ref_challenge(&mut tr, b"e");
+        let ei = e.invert();
+        let mut a2 = vec![];
+        let mut b2 = vec![];
+        let mut g2 = vec![];
+        let mut h2 = vec![];
+        for i in 0..nn {
+            a2.push(a[i] * e + a[nn + i] * yn * ei);
+            b2.push(b[i] * ei + b[nn + i] * e);
+            g2.push(&(&gs[i] * ei) + &(&gs[nn + i] * (e * yni)));
+            h2.push(&(&hs[i] * e) + &(&hs[nn + i] * ei));
+        }
+        a = a2;
+        b = b2;
+        gs = g2;
+        hs = h2;
+        for kk in 0..t {
+            alpha[kk] += dl[kk] * e * e + dr[kk] * ei * ei;
+        }
+        ls.push(l);
+        rs.push(r);
+        len = nn;
+    }
+    let r = draw(&mut rng);
+    let s = draw(&mut rng);
+    let dd: Vec<Scalar> = (0..t).map(|kk| seeded("d", None, kk).unwrap_or_else(|| draw(&mut rng))).collect();
+    let eta: Vec<Scalar> = (0..t).map(|kk| seeded("eta", None, kk).unwrap_or_else(|| draw(&mut rng))).collect();
+    let mut a1 = &(&gs[0] * r) + &(&hs[0] * s);
+    a1 += &h * (r * y * b[0] + s * y * a[0]);
+    let mut bb = &h * (r * y * s);
+    for kk in 0..t {
+        a1 += &gk[kk] * dd[kk];
+        bb += &gk[kk] * eta[kk];
+    }
+    tr.append_message(b"A1", a1.compress().as_fixed_bytes());
+    tr.append_message(b"B", bb.compress().as_fixed_bytes());
+    let e = ref_challenge(&mut tr, b"e");
+    let r1 = r + a[0] * e;
+    let s1 = s + b[0] * e;
+    let d1: Vec<Scalar> = (0..t).map(|kk| eta[kk] + dd[kk] * e + alpha[kk] * e * e).collect();
+    let mut out = vec![t as u8];
+    for x in &d1 {
+        out.extend_from_slice(x.as_bytes());
+    }
+    out.extend_from_slice(big_a.compress().as_fixed_bytes());
+    out.extend_from_slice(a1.compress().as_fixed_bytes());
+    out.extend_from_slice(bb.compress().as_fixed_bytes());
+    out.extend_from_slice(r1.as_bytes());
+    out.extend_from_slice(s1.as_bytes());
+    for (l, r) in ls.iter().zip(rs.iter()) {
+        out.extend_from_slice(l.compress().as_fixed_bytes());
+        out.extend_from_slice(r.compress().as_fixed_bytes());
+    }
+    let _ = <P as MultiscalarMul>::multiscalar_mul(std::iter::empty::<Scalar>(), std::iter::empty::<P>());
+    out
 }
